@@ -145,8 +145,8 @@ for _n, _shape in [("c08_conv_2nodes_default_min", "[0,1] default 0"), ("c08_con
       oracle="user node -> its design value; node normalization == reference design normalization (default 0, design min -1, design max +1); in-range probe normalizes within the node hull; 0 denormalizes to the default")
 H("c08_conv_user_design_roundtrip_nodes", "C08", "fontdrasil", "coords", tier="thorough", funcs=[C + "::CoordConverter::new", C + "::ConvertSpace impls"],
   bound="design [100,400,900] default 1; 3 symbolic user nodes on the k/4 grid, symbolic node index", oracle="user->design->user returns the node")
-H("c08_conv_default_out_of_bounds_is_err", "C08", "fontdrasil", "coords", tier="thorough", funcs=[C + "::CoordConverter::new"],
-  bound="one mapping point, default index 1..3", oracle="Err (no panic); index 0 is Ok")
+H("c08_conv_denormalize_extremes", "C08", "fontdrasil", "coords", tier="thorough", funcs=[C + "::CoordConverter::new", C + "::ConvertSpace impls"],
+  bound="design [100,400,900] default 1; 3 symbolic user nodes; normalized -1/0/+1", oracle="-1/0/+1 denormalize to user min/default/max")
 for _n, _t, _q in [("c08_default_normalization_3distinct", "(300,400,700)", "quick"), ("c08_default_normalization_default_at_min", "(0,0,1)", "thorough"),
                    ("c08_default_normalization_default_at_max", "(-12.5,1000,1000)", "thorough"), ("c08_default_normalization_point_axis", "(5,5,5)", "quick")]:
     H(_n, "C08", "fontdrasil", "coords", tier=_q, funcs=[C + "::CoordConverter::default_normalization", C + "::CoordConverter::new", "fontdrasil/src/types.rs::Axis::default_converter (delegates)"],
